@@ -24,6 +24,8 @@ fn mkbox(x) { var b = Box.new(); b.f = x; return b; }
 fn mkinst(u) { var i = Inst.new(); i.a = [u, "a" + "x"]; i.b = (u, "b"); return i; }
 fn mkclo(x) { return || { return x; }; }
 fn getiter(v) { return v.iter; }
+fn drain_twice(it) { var n = 0; for x in it { n = n + 1; } churn(1); for x in it { n = n + 100; } churn(1); try { it.next(); n = n + 1000; } catch e { n = n + 10; } return n; }
+fn setfirst(v, x) { v[0] = x; churn(1); return [v[0], v.len()]; }
 fn getpush(v) { return v.push; }
 fn getsum(u) { return mkinst(u).sum; }
 #[constructor(new)] class CallHolder { }
@@ -184,6 +186,15 @@ ROOTS["capture_on_finished_fiber"] = ["fn r{g}() {{", "  var f = Fiber.new(|x| {
                                       'print(("ev", {g}, r{g}()));']
 ROOTS["capture_of_fiber_parameter_after_finish"] = ["fn r{g}() {{", "  var f = Fiber.new(|l| {{ return || {{ return l; }}; }});", "  var get = f.call({H});",
                                                     "  churn({n});", "  var l = get();", "  return {P};", "}}", 'print(("ev", {g}, r{g}()));']
+# a `return` that comes BEFORE the capturing closure in source order but runs after it (both sit in a loop): the frame's
+# captured variables must still be closed when it returns
+ROOTS["capture_after_return_site_in_loop"] = ["fn r{g}() {{", "  var l = {H};", "  var fns = [];", "  while true {{",
+                                              "    if fns.len() == 2 {{ return fns; }}", "    fns.push(|| {{ return l; }});", "  }}", "}}",
+                                              "fn p{g}(l) {{ return {P}; }}", "var fns{g} = r{g}();", "churn({n});",
+                                              'print(("ev", {g}, p{g}(fns{g}[1]())));']
+# the value sits at the far end of a chain of 1500 nested vectors (deeper than any fixed marking depth one might pick)
+ROOTS["end_of_deep_chain"] = ["fn r{g}() {{", "  var l = {H};", "  for i in 0..1500 {{ l = [l]; }}", "  churn({n});",
+                              "  for i in 0..1500 {{ l = l[0]; }}", "  return {P};", "}}", 'print(("ev", {g}, r{g}()));']
 GEN_ROOTS = sorted(ROOTS)
 
 # ---- operations that make the interpreter hold fresh objects mid-operation ({u} = unique number)
@@ -233,6 +244,23 @@ OPS = [
     "mkholder([[{u}], [{u} + 1]].iter).f().next()",
     "mkholder(mkinst({u}).sum).f()",
     "mkholder(|x| {{ return [x, ({u}, x)]; }}).f([{u}])",
+    # an iterator polled again after it has finished, over a container only the iterator still holds
+    "drain_twice([[{u}], ({u}, 1)].iter())",
+    "drain_twice(([{u}], ({u}, 1), [2]).iter())",
+    # a fresh heap value stored by index into vectors produced by the different built-ins
+    'setfirst(("q" + "{u}").to_bytes(), [{u}, ({u}, 1)])',
+    'setfirst(("q" + "{u}").to_code_points(), ({u}, [1]))',
+    'setfirst(("a,b" + "{u}").split(","), [{u}])',
+    "setfirst({{1: 2, {u}: 3}}.keys(), [{u}])",
+    "setfirst({{1: [2]}}.items(), ({u}, [3]))",
+    "setfirst([1, 2, {u}][0..2], [{u}])",
+    "setfirst([1, {u}].iter().collect(), [{u}])",
+    # short-lived classes (address reuse under a real allocator): the answers must be the new class's, not a dead one's
+    "mksub(Inst).new().derives(Inst)",
+    "mkcls([{u}]).new().derives(Inst)",
+    "mksub2(Box).new().derives(Inst)",
+    "mksub2(Inst).new().own()",
+    "mksub(Box).new().own()",
 ]
 # operations that fail: the error object is created while the operands are held only by the interpreter
 FAIL_OPS = [
@@ -544,6 +572,25 @@ class C01:
                 v["msg"] = "[%s] %s" % (label, v["msg"])
                 res["violation"] = v
                 return res
+        # the plain checked build: collects at every allocation and REALLY frees, so addresses are reused (the quarantine never
+        # reuses one): anything that identifies an object by its address after it died answers differently here
+        h = ctx.run("checked", dict(sc, config={}))
+        stats.inc("executions")
+        po = process_outcome(h)
+        v = None
+        if po:
+            v = {"class": po[0], "msg": po[1]}
+        else:
+            ev, outs = flat(h)
+            if ev != ref_events or outs != ref_outs:
+                i = next((j for j in range(min(len(ev), len(ref_events))) if ev[j] != ref_events[j]), min(len(ev), len(ref_events)))
+                v = {"class": "output-depends-on-collector", "msg": "event %d: never-collect %s, plain checked build (real frees) %s" % (
+                    i, json.dumps(ref_events[i] if i < len(ref_events) else None)[:300], json.dumps(ev[i] if i < len(ev) else None)[:300])}
+        if v:
+            v["config"] = "checked"
+            v["msg"] = "[real-free] " + v["msg"]
+            res["violation"] = v
+            return res
         # memcheck slice: the plain checked build (collects at every allocation and really frees) under valgrind. Sees what
         # the quarantine cannot: reads/writes of freed memory through raw pointers and borrow guards, invalid frees.
         if sc.get("memcheck", stable_hash(ir) % MEMCHECK_EVERY == 0):
